@@ -12,6 +12,7 @@ import Sigverif.Lemmas.C20Text
 import Sigverif.Lemmas.C20Mod
 import Sigverif.Lemmas.C20Pipe
 import Sigverif.Lemmas.C20Ann
+import Sigverif.Lemmas.C20Plain
 namespace SV
 
 /-- star parameters carry no default (`inspect.Parameter` refuses one) -/
@@ -60,6 +61,14 @@ theorem read_sig_kwoargs (ua upo : Bool) (pk ko : List Param) (va vk : Option Pa
     simp only [List.append_assoc]
   rw [e]
   exact readSig_kwo ua upo pk ko va vk hsorted hvad hvkd
+
+/-- **the spellings without `use_modifiers_kwoargs`** — native, `posoargs`, `annotate`, `annotate` + `posoargs` — for every
+    well-formed signature without positional-only parameters: `s(str(sig)[1:-1], …)` has exactly its parameters, in order
+    (`use_modifiers_posoargs` has nothing to do on such a text; with `use_modifiers_annotate` the `def` is written without
+    annotations and `modifiers.annotate` puts each one back). -/
+theorem s_no_kwoargs (ua upo : Bool) (s : List Param) (hwf : WF s) (hstar : starsBare s) (hnpo : ∀ p ∈ s, p.kind ≠ .po) :
+    ∃ r, sParams ua upo false (pieces s) = .ok r ∧ r.map Param.bare = s.map Param.bare :=
+  sParams_plain ua upo s ((validOk_iff s).1 hwf.1) hwf.2.1 hwf.2.2 hstar hnpo
 
 /-- **the `kwoargs` spelling** (`use_modifiers_kwoargs`, with or without `use_modifiers_posoargs`; annotations written
     natively): for every signature `pk ++ *va ++ ko ++ **vk` without positional-only parameters — any number of parameters
@@ -152,5 +161,9 @@ example : (sParams true false true (pieces (exK ++ (some (⟨11, .vp, none, none
     (some (⟨12, .vk, none, none, .empty⟩ : Param)).toList))).map (·.map Param.bare) =
     .ok [⟨1, .pk, none, none, .empty⟩, ⟨2, .pk, some 3, some 40, .empty⟩, ⟨11, .vp, none, none, .empty⟩,
          ⟨4, .ko, none, some 41, .empty⟩, ⟨3, .ko, some 4, none, .empty⟩, ⟨12, .vk, none, none, .empty⟩] := by rfl
+
+example : (sParams true true false (pieces (exK ++ (some (⟨11, .vp, none, none, .empty⟩ : Param)).toList ++ exKo ++
+    (some (⟨12, .vk, none, none, .empty⟩ : Param)).toList))).map (·.map Param.bare) =
+    .ok (exK ++ [⟨11, .vp, none, none, .empty⟩] ++ exKo ++ [⟨12, .vk, none, none, .empty⟩]) := by rfl
 
 end SV
